@@ -30,6 +30,12 @@ CHECKS["C08"] = dict(text="The real handler classes, _handle_zero_instances_case
 CHECKS["C13"] = dict(text="PanopticaResult's binarisation and _calc_global_bin_metric run on fully symbolic small label maps (every voxel a solver variable, also over the whole dtype range) with a lazily symbolic handler; the reported global_bin_<m> is compared by SMT query with the metric of the two foregrounds built from the voxel variables, and with the configured empty-prediction / empty-reference / no-instances value when a side is empty.",
              note="float64 as exact rationals; array size bound; ASSD/clDice global metrics only in the thorough tier / not at all (skeleton stub)",
              ref="DESIGN.md section 4 / C13")
+CHECKS["C20"] = dict(text="The real ValueSummary and Panoptica_Statistic (get, get_one_subject, get_summary, get_summary_across_groups) run on tables whose cells are free reals or missing (every presence pattern explored by forking) and under a permuted subject order; mean, min/max attainment, 'np.std called on exactly the present values with ddof 0', permutation invariance, per-subject lookup and the across-groups summary are SMT obligations.",
+             note="np.std trusted (obligation on its arguments); float summation order not modelled; table size bound",
+             ref="DESIGN.md section 4 / C20")
+CHECKS["C18"] = dict(text="The real header construction, row writing and Panoptica_Statistic.from_file/get_one_subject run end to end over an in-memory file model with group and subject names as bounded symbolic strings (symbolic printable code points; split/rsplit/dict-key equality fork) and symbolic value kinds; 'the loader returns exactly the finite value written under the same subject/group/metric, and missing otherwise' is checked on every path.",
+             note="csv text quoting and float repr round trip are trusted and exercised for real on every witness (solver-chosen names, rescaled magnitudes); name length bound; evaluator is a stub object at the aggregator boundary",
+             ref="DESIGN.md section 4 / C18")
 NA = {}
 m = {"version": 1, "setup_cmd": "./bootstrap.sh",
      "hooks": {"guard": "PANOPTICA_VERIF", "enable": "no hooks in /repo: checks re-import /repo/panoptica from the working tree into a private twin with model modules substituted at import time (pv/twin.py)",
